@@ -177,6 +177,150 @@ theorem C11_compact_keeps_suffix {l l' : Log} {i : Nat} (hw : l.WF) (hc : l.comp
     · rw [wf_lastIndex hwf', wf_lastIndex hw, hbase, hents, List.length_drop]; omega
   · simp at hc
 
+/-- compaction keeps the last term too (the boundary entry's term becomes the base term) -/
+theorem compact_lastTerm {l l' : Log} {i : Nat} (hc : l.compact i = some l') : l'.lastTerm = l.lastTerm := by
+  unfold compact at hc
+  split at hc
+  · rename_i hcont
+    have hb := contains_iff.mp hcont
+    have hk : i - l.base - 1 < l.ents.length := by omega
+    rw [List.getElem?_eq_getElem hk] at hc
+    simp only [Option.some.injEq] at hc
+    subst hc
+    unfold lastTerm
+    simp only [List.getLast?_drop]
+    by_cases hle : l.ents.length ≤ i - l.base
+    · simp only [hle, if_true]
+      have hlen : i - l.base = l.ents.length := by omega
+      have : l.ents.getLast? = some (l.ents[i - l.base - 1]) := by
+        rw [List.getLast?_eq_getElem?]
+        rw [List.getElem?_eq_getElem (by omega)]
+        congr 2; omega
+      rw [this]
+    · simp only [hle, if_false]
+      cases hg : l.ents.getLast? with
+      | some e => rfl
+      | none =>
+        have : l.ents = [] := List.getLast?_eq_none_iff.mp hg
+        rw [this] at hk; simp at hk
+  · simp at hc
+
+theorem becomeFollower_withLog (n : Node) (l' : Log) (now ld t : Nat) :
+    Node.becomeFollower { n with log := l' } now ld t =
+      ({ (n.becomeFollower now ld t).1 with log := l' }, (n.becomeFollower now ld t).2) := by
+  unfold Node.becomeFollower Node.resetSnapshots
+  rfl
+
+theorem rvEnter_withLog (n : Node) (l' : Log) (now : Nat) (q : RVReq) :
+    rvEnter { n with log := l' } now q = ({ (rvEnter n now q).1 with log := l' }, (rvEnter n now q).2) := by
+  unfold rvEnter
+  split
+  · exact becomeFollower_withLog n l' now q.candidate q.term
+  · rfl
+
+/-- the vote handler reads the log only through its last index and last term -/
+theorem requestVote_log_irrelevant (n : Node) (l' : Log) (now : Nat) (q : RVReq)
+    (hi : l'.lastIndex = n.log.lastIndex) (ht : l'.lastTerm = n.log.lastTerm) :
+    requestVote { n with log := l' } now q =
+      (requestVote n now q).map (fun r => ({ r.1 with log := l' }, r.2.1, r.2.2)) := by
+  have hlog := rvEnter_log n now q
+  unfold requestVote
+  rw [rvEnter_withLog]
+  simp only [Node.leaseValid, Node.contactFresh]
+  split
+  · rfl
+  · split
+    · rfl
+    · split
+      · rfl
+      · simp only [hi, ht, hlog]
+        split
+        · rfl
+        · split
+          · rfl
+          · split <;> rfl
+
+/-- **A compacted node votes exactly as a node holding the full log.** For every node state,
+    every compaction index the log contains and every vote request (real or prevote): the
+    answer, the storage effects and the resulting state are those of the node with the full
+    log — only the log differs, and it is the compacted one. -/
+theorem C11_compaction_invisible_to_the_vote_handler (n : Node) (l' : Log) (i now : Nat) (q : RVReq)
+    (hw : n.log.WF) (hc : n.log.compact i = some l') :
+    requestVote { n with log := l' } now q =
+      (requestVote n now q).map (fun r => ({ r.1 with log := l' }, r.2.1, r.2.2)) :=
+  requestVote_log_irrelevant n l' now q (C11_compact_keeps_suffix hw hc).2.2.1 (compact_lastTerm hc)
+
+
+/-- the boundary entry of a compaction: what `compact` makes the new base -/
+theorem compact_boundary {l l' : Log} {i : Nat} (hc : l.compact i = some l') :
+    ∃ e, l.get? i = some e ∧ l'.baseTerm = e.term ∧ l.contains i = true := by
+  unfold compact at hc
+  split at hc
+  · rename_i hcont
+    have hb := contains_iff.mp hcont
+    have hk : i - l.base - 1 < l.ents.length := by omega
+    rw [List.getElem?_eq_getElem hk] at hc
+    simp only [Option.some.injEq] at hc
+    refine ⟨l.ents[i - l.base - 1], ?_, by rw [← hc], hcont⟩
+    unfold get?
+    simp [hcont, List.getElem?_eq_getElem hk]
+  · simp at hc
+
+/-- **A compacted node makes the same previous-entry decisions as a node holding the full log.**
+    `n` is any node whose log starts at its snapshot boundary; it compacts at a contained index `i`
+    (what the end of a local snapshot does: log, boundary index and boundary term move together).
+    For every AppendEntries request whose previous index is not below `i`, the previous-entry
+    check accepts after the compaction exactly when it accepted before. (Rejections may carry a
+    different hint: the conflict scan stops at the boundary. Requests with a previous index below
+    `i` are answered "send from the boundary": the entries they ask about are in the snapshot.) -/
+theorem C11_compacted_node_makes_the_same_prev_entry_decisions (n : Node) (l' : Log) (i : Nat) (q : AEReq)
+    (hw : n.log.WF) (hb : n.log.base = n.snapIndex) (hc : n.log.compact i = some l') (hp : i ≤ q.prevIndex) :
+    (aePrevCheck { n with log := l', snapIndex := i, snapTerm := l'.baseTerm } q = .ok ↔ aePrevCheck n q = .ok) := by
+  obtain ⟨hbase, hsuf, hlast, hwf'⟩ := C11_compact_keeps_suffix hw hc
+  obtain ⟨e, hge, hbt, hcont⟩ := compact_boundary hc
+  have hci := contains_iff.mp hcont
+  have hnext : l'.nextIndex = n.log.nextIndex := by unfold nextIndex; rw [hlast]
+  have hli := wf_lastIndex hw
+  unfold aePrevCheck
+  simp only [hnext]
+  have h1 : ¬ i > q.prevIndex := by omega
+  have h1' : ¬ n.snapIndex > q.prevIndex := by omega
+  rw [if_neg h1, if_neg h1']
+  by_cases h2 : n.log.nextIndex ≤ q.prevIndex
+  · rw [if_pos h2, if_pos h2]
+  · rw [if_neg h2, if_neg h2]
+    have h3' : ¬ (n.snapIndex = q.prevIndex ∧ n.snapTerm ≠ q.prevTerm) := by omega
+    rw [if_neg h3']
+    have h4' : n.snapIndex < q.prevIndex := by omega
+    rw [if_pos h4']
+    have hpc : n.log.contains q.prevIndex = true := by
+      rw [contains_iff]; unfold nextIndex at h2; omega
+    obtain ⟨pe, hpe⟩ := Option.isSome_iff_exists.mp (get?_isSome_of_contains hpc)
+    by_cases hip : i = q.prevIndex
+    · subst hip
+      rw [hpe] at hge; injection hge with hge; subst hge
+      simp only [hpe, hbt]
+      by_cases ht : pe.term = q.prevTerm
+      · simp [ht]
+      · simp only [ht, ne_eq, not_false_eq_true, and_self, if_true, true_and]
+        constructor
+        · intro h; simp at h
+        · intro h; split at h <;> simp at h
+    · have hlt : i < q.prevIndex := by omega
+      have h3 : ¬ (i = q.prevIndex ∧ l'.baseTerm ≠ q.prevTerm) := by omega
+      rw [if_neg h3, if_pos hlt, hsuf q.prevIndex hlt, hpe]
+      simp only
+      by_cases ht : pe.term = q.prevTerm
+      · simp [ht]
+      · simp only [ht, ne_eq, not_false_eq_true, if_true]
+        constructor
+        · intro h; split at h <;> simp at h
+        · intro h; split at h <;> simp at h
+
+/-- non-vacuity: a three-entry log compacted at 2; a request with previous entry (2, term 1) -/
+example : ({ base := 0, baseTerm := 0, ents := [⟨1, 1, 1, 11, none⟩, ⟨2, 1, 1, 12, none⟩, ⟨3, 2, 1, 13, none⟩] } : Log).compact 2 =
+    some { base := 2, baseTerm := 1, ents := [⟨3, 2, 1, 13, none⟩] } := by decide
+
 /-- A file in progress is *honest* w.r.t. the snapshots `S` the senders hold when it is a
     prefix of the snapshot its own label names. -/
 def RecvHonest (S : Nat → Nat → List Nat) (f : RecvSnap) : Prop :=
